@@ -21,6 +21,22 @@ SIZES = [5, 200, 20000]
 ID_RE = re.compile(rb"id=(\d+);")
 
 
+def bound(n, size, reruns, L, N):
+    """keep a case affordable: without retention every rotated file stays and every rotation lists (and the reader re-reads) them all,
+    so the number of rotations over the whole crash loop is capped; so is the volume written"""
+    def rotations(n, reruns):
+        if L <= 0:
+            return 0
+        return n * reruns if L < 2 * size else n * reruns * size // L
+    if N <= 0 and rotations(n, reruns) > 1500:
+        reruns = 1
+        while rotations(n, reruns) > 1500:
+            n //= 2
+    if n * size * reruns > 45000000:
+        reruns = 1
+    return reruns, n
+
+
 def gen_case(rnd, quick):
     cfg = rnd.choice(CFGS)
     size = rnd.choice(SIZES)
@@ -40,9 +56,7 @@ def gen_case(rnd, quick):
         if cfg == "ini" and L == 0 and N == 0:
             pass
     reruns = rnd.choice([1, 1, 1, 2, 3, 4]) if n <= 2000 else 1
-    if 0 < L < size and N <= 0 and n > 100:
-        # every message rotates and nothing is ever removed: one file per message, and each rotation lists them all
-        reruns, n = 1, min(n, 500)
+    reruns, n = bound(n, size, reruns, L, N)
     return {"cfg": cfg, "n": n, "size": size, "nthreads": nthreads, "fatal_thread": fatal_thread, "L": L, "N": N,
             "opts": opts, "withapp": rnd.randint(0, 1), "stderr": rnd.choice(["null", "null", "full"]),
             "reruns": reruns}
@@ -180,15 +194,14 @@ def run(ctx):
         cases = [json.load(open(ctx.replay))["case"]]
     else:
         rnd = random.Random(ctx.seed * 911 + 11)
-        count = ctx.pick(96, 800)
+        count = ctx.pick(96, 2000)
         cases = []
         # every configuration x {small, buffer-crossing} first, then random
         for cfg in CFGS:
             for n, size in ((3, 5), (100, 200), (2000, 200)):
                 c = gen_case(rnd, ctx.quick)
                 c.update(cfg=cfg, n=n, size=size)
-                if 0 < c["L"] < size and c["N"] <= 0 and n > 100:
-                    c.update(reruns=1, n=min(n, 500))
+                c["reruns"], c["n"] = bound(c["n"], c["size"], c["reruns"], c["L"], c["N"])
                 if cfg == "fluent":
                     c.update(L=0, N=0, opts=0)
                 cases.append(c)
